@@ -68,6 +68,7 @@ def run (w : W) (args : List String) : W × String :=
   | ["cl.eventerr", a] =>
     if w.readDead || w.closed then (w, "dead") else (quiesce (deliver w (eventMsg a.toNat! errId)), "dispatched")
   | "cl.rfail" :: _ => (quiesce (readFail w), "ok")
+  | ["cl.closeerr"] => (w, "ok")   -- what the stream's Close reports does not matter: the handlers are closed all the same
   | ["cl.close"] => (quiesce (readFail (localClose w)), "ok")
   | ["cl.out", c] =>
     let w' := quiesce w
